@@ -9,10 +9,10 @@ META = {
     "claimed": True,
     "engine": "ModelGeom.tla",
     "text": ("TLC checks, for 8 model kinds (polynomial core with Jacobian / direction-Jacobian / no gradient, linear dense / sparse / "
-             "function pair, unipotent 4x4 PDE with gradient / Jacobian) x 15 domain x 9 range geometries, that the five input "
+             "function pair, unipotent 4x4 PDE with gradient / Jacobian) x 15 domain x 9 range geometries, that the six input "
              "representations give one output H+(F(G v)), that the gradient J_G^T J_F^T (H+)^T d equals the exact derivative of the "
-             "par->par map (exact 5-point stencil), the refusal table and the renaming frame condition; 4 named deviations must violate. "
-             "Every case is replayed: par ndarray, fun ndarray (is_par=False), CUQIarray par/fun, Samples; value, wrapper type, flag and "
+             "par->par map (exact 5-point stencil), the refusal table and the renaming frame condition; 5 named deviations must violate. "
+             "Every case is replayed: par ndarray, fun ndarray (is_par=False), CUQIarray par/fun, Samples of parameters and of function values; value, wrapper type, flag and "
              "geometry of the output; gradient for direction/wrt as par, fun, CUQIarray against the exact value or the refusal; model(dist)."),
     "note": ("Bounded sizes (domain function dimension 6, range 4); one argument models only (the pinned version supports one input). "
              "KLExpansion realised numerically from the original geometry object. Exact class of the output for plain ndarray input and "
@@ -25,7 +25,8 @@ import warnings
 import numpy as np
 
 DEVIATIONS = [("GradientOmitsGeometryDerivative", "ChainRule"), ("SamplesItemsAsFunvals", "OneOutput"),
-              ("ArrayFlagIgnored", "OneOutput"), ("RenameMutatesOriginal", "Rename")]
+              ("ArrayFlagIgnored", "OneOutput"), ("RenameMutatesOriginal", "Rename"),
+              ("SamplesFunItemsAsParameters", "OneOutput")]
 
 
 def _try(f):
@@ -166,6 +167,26 @@ def check_case_variant(ctx, case, dom, rng):
             ctx.mismatch(sig + "/value", case, "forward on Samples is not column-wise H+(F(G v))", want, arr)
         if not close(np.asarray(S.samples), np.column_stack(exp["vs"])):
             ctx.mismatch(sig + "/input_mutated", case, "forward changed the input Samples", None, None)
+
+    # Samples of FUNCTION values (is_par=False; vector form exactly when the function values are 1-D): same outputs
+    ctx.case(("samples_fun", key, case["fi"]), facet="forward_samples_fun")
+    Ff = np.stack([dom.to_fun(f) for f in exp["fs"]], axis=-1)
+    Sf = Samples(Ff.copy(), geometry=dgeom, is_par=False, is_vec=(Ff.ndim == 2))
+    sig = "forward/%s/rep=samples_fun" % key
+    for tag, call in (("", lambda: model.forward(Sf)), ("_flagged", lambda: model.forward(Sf, is_par=False))):
+        out, err = _try(call)
+        want = np.column_stack(exp["outs"])
+        if err is not None:
+            ctx.mismatch(sig + tag + "/raised", case, "forward raised on a Samples input holding function values", want, repr(err))
+        elif not isinstance(out, Samples):
+            ctx.mismatch(sig + tag + "/type", case, "output for Samples input is not Samples", "Samples", type(out).__name__)
+        elif not (out.geometry == rgeom) or getattr(out, "is_par", True) is not True:
+            ctx.mismatch(sig + tag + "/wrap", case, "output Samples do not carry the range geometry as parameters", repr(rgeom), repr(out.geometry))
+        elif not close(np.asarray(out.samples, dtype=float), want):
+            ctx.mismatch(sig + tag + "/value", case, "forward on Samples of function values is not column-wise H+(F(f)): the columns were "
+                         "not used as function values", want, np.asarray(out.samples))
+    if not close(np.asarray(Sf.samples), Ff):
+        ctx.mismatch(sig + "/input_mutated", case, "forward changed the input Samples", None, None)
 
     # ---- gradient -------------------------------------------------------------------------------------------------
     w, d, wf = exp["w"], exp["d"], dom.to_fun(exp["wf"])
